@@ -7,6 +7,7 @@ spelling rather than on the program (a false alarm in waiting).  Used by the tho
   size     x.shape[k] -> x.size(k)          shape    x.size(k) -> x.shape[k]
   yoda     a == b -> b == a ; a < b -> b > a
   commute  a + b -> b + a (also *, &, |)    dimkw    x.sum(-1) -> x.sum(dim=-1), torch.cat(xs, 1) -> torch.cat(xs, dim=1)
+  unelse   the else branch after an early return is flattened   tempret  return <expr> -> _ret = <expr>; return _ret
   format   ast.unparse round trip (comments / layout dropped)
 """
 import ast
@@ -103,6 +104,52 @@ class DimKw(ast.NodeTransformer):
         return node
 
 
+class UnElse(ast.NodeTransformer):
+    """if c: ...; return a  else: B   ->   if c: ...; return a   followed by B  (the else branch after an early return is flattened)"""
+
+    def _flatten(self, stmts):
+        out = []
+        for st in stmts:
+            if isinstance(st, ast.If) and st.orelse and st.body and isinstance(st.body[-1], (ast.Return, ast.Raise)) and not (len(st.orelse) == 1 and isinstance(st.orelse[0], ast.If)):
+                new = ast.If(test=st.test, body=st.body, orelse=[])
+                out.append(new)
+                out.extend(self._flatten(st.orelse))
+            else:
+                out.append(st)
+        return out
+
+    def visit_FunctionDef(self, node):
+        self.generic_visit(node)
+        node.body = self._flatten(node.body)
+        return node
+
+    visit_AsyncFunctionDef = visit_FunctionDef
+
+
+class TempReturn(ast.NodeTransformer):
+    """return <expr>  ->  _ret = <expr>; return _ret"""
+
+    def visit_FunctionDef(self, node):
+        self.generic_visit(node)
+
+        def rewrite(stmts):
+            out = []
+            for st in stmts:
+                for f in ("body", "orelse", "finalbody"):
+                    if hasattr(st, f) and isinstance(getattr(st, f), list) and not isinstance(st, (ast.FunctionDef, ast.AsyncFunctionDef, ast.ClassDef)):
+                        setattr(st, f, rewrite(getattr(st, f)))
+                if isinstance(st, ast.Return) and st.value is not None and not isinstance(st.value, (ast.Name, ast.Constant, ast.Tuple)):
+                    out.append(ast.Assign(targets=[ast.Name(id="_ret", ctx=ast.Store())], value=st.value))
+                    out.append(ast.Return(value=ast.Name(id="_ret", ctx=ast.Load())))
+                else:
+                    out.append(st)
+            return out
+        node.body = rewrite(node.body)
+        return node
+
+    visit_AsyncFunctionDef = visit_FunctionDef
+
+
 class Yoda(ast.NodeTransformer):
     MIRROR = {ast.Lt: ast.Gt, ast.Gt: ast.Lt, ast.LtE: ast.GtE, ast.GtE: ast.LtE, ast.Eq: ast.Eq, ast.NotEq: ast.NotEq}
 
@@ -113,7 +160,7 @@ class Yoda(ast.NodeTransformer):
         return node
 
 
-TRANSFORMS = {"rename": Renamer, "size": SizeCall, "shape": ShapeIndex, "yoda": Yoda, "commute": Commute, "dimkw": DimKw, "format": None}
+TRANSFORMS = {"rename": Renamer, "size": SizeCall, "shape": ShapeIndex, "yoda": Yoda, "commute": Commute, "dimkw": DimKw, "unelse": UnElse, "tempret": TempReturn, "format": None}
 
 
 
@@ -147,7 +194,7 @@ def build(root: str, kind: str):
     return ov
 
 
-def run_equivalences(ctx, kinds=("rename", "yoda", "dimkw", "commute", "size")):
+def run_equivalences(ctx, kinds=("rename", "yoda", "dimkw", "commute", "size", "tempret", "unelse")):
     """thorough tier: the rule module must report exactly the same failing (rule, construct) pairs on each rewritten repo"""
     from ..core import Ctx
     from ..model import AnalysisError, Repo
